@@ -8,7 +8,9 @@ import (
 var (
 	KeyAssetParams = []byte("AssetParams") // asset params key
 
-	DefaultPreviousBlockTime = time.Now()
+	// DefaultPreviousBlockTime must be the same value in every process: the default
+	// genesis is also applied on-chain (InitGenesis of a module added by an upgrade)
+	DefaultPreviousBlockTime = time.Unix(1, 0).UTC()
 )
 
 // ParamKeyTable returns the TypeTable for coinswap module
